@@ -213,17 +213,19 @@ def run_property(a, ck):
             "replay_cmd": "./check %s --replay <this file>" % prop, "harness": st["harness"], "seed": seed})
         violations.append(("spec", p, ""))
         k += 1
-    # a failing input found on the model side: the source as translated now violates the spec predicate
+    # the source as translated now violates the spec predicate on this input UNDER THE MODELLED OUTSIDE WORLD
+    # (model/*Ext.v) while the real code, run on the same input, does not: not a failing input of the
+    # implementation (a rewrite that calls the outside world under new names has this effect too)
     if not spec_fail:
         for c in src_spec_fail[:2]:
             st = c["_stage"]
             ex = ck.explain_case(prop, c, rundir, st["corr"])
             p = write_replay(ck, prop, seed, k, {
                 "property": prop, "kind": "spec-violated-on-translated-source-trace",
-                "clause": "the executable spec predicate of %s is false on the trace that the Gallina translation of /repo's current source (coq/translated) produces for this input" % st["corr"],
+                "clause": "the executable spec predicate of %s is false on the trace that the Gallina translation of /repo's current source (coq/translated) produces for this input under the modelled outside world (model/*Ext.v); the implementation, run on the same input, satisfies it - so this names the broken source tie, not a failing input of the real code" % st["corr"],
                 "input": c["input"], "impl": c["impl"], "model_explain": ex, "coq_case": c["coq"],
                 "replay_cmd": "./check %s --replay <this file>" % prop, "harness": st["harness"], "seed": seed})
-            violations.append(("srcspec", p, ""))
+            violations.append(("srcspec", p, "no-failing-input-found"))
             k += 1
     if not spec_fail and not src_spec_fail:
         for c in src_mismatch[:1]:
